@@ -125,16 +125,46 @@ func runC13(c *core.Case) *core.Result {
 	case "self-subscribed":
 		existType = typ
 		X = newClient("X")
-		xd = X.Open(key, typ, bed.SubscribeOrCreate)
+		xd = X.Open(key, typ, mode)
+		if mode == bed.Subscribe {
+			// somebody else must have created it
+			owner = newClient("owner")
+			owner.Open(key, typ, bed.Create)
+			owner.Register()
+			if res := mustSync(owner); res != nil {
+				return res
+			}
+		}
 		X.Register()
+		for j := 0; j < r.Intn(3); j++ {
+			w.localOp(xd) // issued before the first sync: part of the creation, void for a subscription
+		}
 		firstReq = X.BuildRequest()
 		w.ledger.Offer(firstReq)
 		ex := X.Send(firstReq)
 		if ex.Out.Err != nil || ex.Out.Panic != "" || ex.Out.TimedOut {
 			return c.Inconclusive("setup request failed")
 		}
-		X.Apply(ex.Resp)
 		w.idle()
+		if rep%2 == 1 {
+			// the response of the entry request is lost; the client retries
+			c.Step("X's first response is lost; X retries")
+			if res := mustSync(X); res != nil {
+				return res
+			}
+		} else {
+			X.Apply(ex.Resp)
+			w.idle()
+		}
+		if xd.DT.GetState() != model.StateOfDatatype_SUBSCRIBED {
+			return c.Violation("entry-not-completed", "%s of a new client did not end in SUBSCRIBED (lost first response: %v)", mode, rep%2 == 1)
+		}
+		if dd := w.b.Datatype(w.colNum, key); dd != nil {
+			want, err := w.replayView(typ, w.b.Ops(dd.DUID), 0)
+			if err == nil && xd.View() != want {
+				return c.Violation("entry-state", "after %s (first response lost: %v) the client reads %s, the stored log replays to %s", mode, rep%2 == 1, clip(xd.View(), 400), clip(want, 400))
+			}
+		}
 		if point != "fresh" {
 			for j := 0; j < 2+r.Intn(4); j++ {
 				w.localOp(xd)
